@@ -117,7 +117,7 @@ def bfs(
     deadline=None,
     log=None,
 ):
-    t0 = time.time()
+    t0 = time.perf_counter()
     res = Result()
     seen = {}
     frontier = []
@@ -133,7 +133,7 @@ def bfs(
     while frontier:
         if max_depth is not None and depth >= max_depth:
             break
-        if deadline is not None and time.time() > deadline:
+        if deadline is not None and time.perf_counter() > deadline:
             res.capped = f"deadline hit before expanding depth {depth + 1}"
             break
         if len(frontier) >= 8:
@@ -184,7 +184,7 @@ def bfs(
     res.exhausted = not frontier
     res.graph = edges
     res.state_ids = seen if want_graph else None
-    res.wall = time.time() - t0
+    res.wall = time.perf_counter() - t0
     return res
 
 
